@@ -573,6 +573,20 @@ def register_handles(R, path_obj):
           requires=[("handle-position-in-[-n,n)", any_position)],
           ensures=[("write-through-at-the-wrapped-position-and-nothing-else", writes_wrapped)], options=dict(LOOSE))
 
+    def parent_wrapped(E, v, o):
+        n = v["self"]
+        t = n.fields["attach"]
+        p = z3.Select(col(t, "pid").arr, wrapped(to_z3(n.fields["idx"], "int"), nof(t)))
+        r = v["result"]
+        if r is None:
+            return p == -1
+        return z3.And(p != -1, r.cls is Tree.Node, r.fields["attach"] is t, to_z3(r.fields["idx"], "int") == p)
+
+    R.add(f"{TREE}:Tree.Node.parent", prop="C09",
+          setup=lambda S: dict(self=node_obj(S, sym_tree(S, "t"))),
+          requires=[("handle-position-in-[-n,n)", any_position)],
+          ensures=[("handle-on-the-parent-of-the-wrapped-row-or-none-for-a-root", parent_wrapped)], options=dict(LOOSE))
+
     # a node of a path: position i of the window, i.e. row idx[i] of the owner
     def pnode(S):
         p = path_obj(S, sym_tree(S, "t", frozen=True))
@@ -1077,6 +1091,25 @@ def register_swc(R, path_obj):
     for fn, delta in (("number_of_nodes", 0), ("number_of_edges", -1), ("__len__", 0)):
         R.add(f"{SWC}:SWCLike.{fn}", prop="C09", variants=BOTH, requires=PRE,
               ensures=[("rows-of-the-view" + ("-minus-one" if delta else ""), (lambda d: lambda E, v, o: to_z3(v["result"], "int") == size_of(v["self"]) + d)(delta))])
+
+    # ------------------------------------------------------------------ the seven column accessors
+    def column_post(k):
+        def f(E, v, o):
+            r, x = v["result"], v["self"]
+            if "idx" not in x.fields:
+                return r is col(x, k)  # the owner hands out the column itself (aliasing intended)
+            if k in ("id", "pid"):  # a path renumbers its nodes
+                j, n = qj(), size_of(x)
+                return z3.And(r.uid not in E.entry_uids, r.nz() == n, z3.ForAll([j], z3.Implies(z3.And(j >= 0, j < n), r.get(j).z == (j if k == "id" else j - 1))))
+            j, n = qj(), size_of(x)
+            return z3.And(r.uid not in E.entry_uids, r.nz() == n, z3.ForAll([j], z3.Implies(z3.And(j >= 0, j < n), r.get(j).z == cell(x, k, j))))
+
+        return f
+
+    for k in KEYS:
+        variants = BOTH if k not in ("id", "pid") else {"tree": on_tree}  # Path overrides id() / pid() (verified above)
+        R.add(f"{SWC}:SWCLike.{k}", prop="C09", variants=variants, requires=PRE,
+              ensures=[(f"column-{k}-of-the-view-(the-owner's-column-itself-or-a-fresh-gather-in-window-order)", column_post(k))])
 
     # ------------------------------------------------------------------ xyz / xyzw / xyzr
     def stack_post(names):
